@@ -41,6 +41,22 @@ theorem fromLV_is_projection (D : LV) (hw : D.WF) (hf : D.Flat) :
     ∃ G, D.toMG? = .ok G ∧ IsProjection D G :=
   ⟨D.readOff, toMG?_eq D hw.tagged, readOff_isProjection D hw hf⟩
 
+/-- what `from_latent_variable_dag` returns on ANY fully tagged LV-DAG (flat or not), and that it only
+fails for a missing tag: an observed node points at its children, two distinct children of a latent are
+joined by a bidirected edge -/
+theorem fromLV_edges (D : LV) (hw : D.WF) :
+    ∃ G, D.toMG? = .ok G ∧ ∀ a b, (G.DiEdge a b ↔ a ∉ D.latent ∧ D.Edge a b) ∧
+      (G.BiEdge a b ↔ a ≠ b ∧ ∃ l, l ∈ D.latent ∧ D.Edge l a ∧ D.Edge l b) :=
+  ⟨D.readOff, toMG?_eq D hw.tagged, fun a b =>
+    readOff_edges D hw.edges_nodup (fun e he => (hw.edge_mem e he).1) a b⟩
+
+/-- a node without the tag makes `from_latent_variable_dag` raise `ValueError`, nothing else does -/
+theorem fromLV_error_iff (D : LV) : (∃ e, D.toMG? = .error e) ↔ D.untagged ≠ [] := by
+  unfold toMG?
+  cases h : D.untagged with
+  | nil => simp
+  | cons x xs => simp
+
 /-- **Round trip.** `from_latent_variable_dag(to_latent_variable_dag(G)) == G` for every mixed graph
 (no acyclicity needed), nodes without edges included, whatever the nodes are called. -/
 theorem roundtrip (fresh : Nat → Nat) (hinj : Function.Injective fresh) (G : MG Nat) (hG : G.WF)
